@@ -534,8 +534,10 @@ def custom_c12(builds, r, thorough, res):
         return bad, viol, 0
     cells = set()
     k = 10 if thorough else 1
-    v, c, worst = jets.run_jets(builds[True], exj, jets.JGROUPS, r, 12 * k, cells)
+    v, c, worst, lb = jets.run_jets(builds[True], exj, jets.JGROUPS, r, 12 * k, cells,
+                                    modelled=set(MODELLED) | {g for g in jets.JGROUPS if g.startswith("B:")})
     viol += v
+    bad += lb
     n += c
     res.notes["dual_vs_jacobian_worst_rel"] = {"%s.%s" % kk: vv for kk, vv in sorted(worst.items(), key=lambda x: -x[1])[:12]}
     v, c = jets.run_functors(exj, jets.JGROUPS, r, 8 * k, cells)
